@@ -14,7 +14,17 @@ ASSUME = ["asyncio realises only transitions the LTS allows: validated on the ex
 
 def run(chk):
     pool_check.run_prop(chk, PROP, RULE, ASSUME, real_runs=0)
+    # the other half of "a task starts only after its dependencies": the prerequisites gwf names must REACH the pool —
+    # multi-invocation `gwf -b local run` histories against a pool server that records the enqueue messages
+    # (fresh pools hand out id 0 first)
+    import history_check as HC
+    rule, assume = chk.rule, chk.assumptions
+    HC.run_prop(chk, PROP, ["C07:local", "C06:local", "C07:local"], 48 if chk.tier == "quick" else 600,
+                rule + "; plus 48 [600] CLI histories on the local backend (prerequisite ids in the enqueue messages)", assume, lambda r: True)
 
 
 def replay(chk, data):
+    if "focus" in data.get("input", {}):
+        import history_check as HC
+        return HC.replay_prop(chk, PROP, data, RULE)
     return pool_check.replay_prop(chk, PROP, RULE, data)
